@@ -45,6 +45,14 @@ fn main() {
         // spawned process has nothing to do
         std::process::exit(0);
     }
+    if cmd == "serve-real" {
+        // C18's shutdown hand-over scenario runs the daemon's real `serve` loop (authority
+        // acquisition, listener, endpoint advertisement, signal handling, graceful drain, release)
+        // in a process of its own; store, workspace and address come from the environment
+        let rt = tokio::runtime::Builder::new_multi_thread().worker_threads(2).enable_all().build().expect("runtime");
+        rt.block_on(ripd::serve_default());
+        std::process::exit(0);
+    }
     let code = match cmd {
         "check" => {
             let id = args.get(2).cloned().unwrap_or_default();
